@@ -17,3 +17,8 @@ CLAIMS["C13"] = {
     "note": "Trusts the reference semantics written from the property text (ASCII case-insensitivity; longest-prefix; later duplicate route wins); mixed masks other than single kinds/ALL are outside the quantifier (the builder panics on them by design).",
     "technique": "runtime monitoring: logging recorder doubles beneath generated layer stacks, compared against an executable reference model per operation",
 }
+CLAIMS["C01"] = {
+    "text": "Exploration: thousands (quick) to hundreds of thousands (thorough) of generated scope programs per run — arbitrary nesting of with_local_recorder, guards dropped in any order, leaked guards, guards escaping closures, panics unwinding through scopes, 1-4 threads, with and without a process-global recorder — each emission (66 macro shapes) checked against a per-thread scope model by logging recorder doubles; the same programs with really-freed recorders run under ASan and Miri so a dispatch after the borrow ended is a reported memory error. Held = no emission observed at a wrong/ended recorder or with altered fields, apart from the listed known finding.",
+    "note": "Scope model: innermost live install wins, else global, else nothing observable. After mem::forget only the 'never after borrow ended' clause is judged. The no-op recorder is observed only as absence of deliveries.",
+    "technique": "runtime monitoring: logging recorder doubles + per-thread scope reference model over generated programs; ASan/Miri legs with real frees",
+}
